@@ -68,6 +68,12 @@ func init() {
 				p.Jobs = append(p.Jobs, Job{Harness: "gonnx.H_C18_newmodel", Case: map[string]interface{}{"nopset": 1, "graph": true, "ninit": 2, "n0": 1, "n1": n1, "raw": false, "rawdt": 1, "ninfo": 0, "bothraw": rawLen}})
 			}
 		}
+		// nodes whose attributes are not what their operator expects (only: never a panic, a model or an error)
+		for _, nd := range []string{"constant-value-without-tensor", "constant-value-typed-tensor-absent", "constant-bare", "constant-undecodable-tensor", "odd-attributes"} {
+			for _, ninit := range []int{0, 1} {
+				p.Jobs = append(p.Jobs, Job{Harness: "gonnx.H_C18_newmodel", Case: map[string]interface{}{"nopset": 1, "graph": true, "ninit": ninit, "n0": 1, "n1": 0, "raw": false, "rawdt": 1, "ninfo": 0, "nodes": nd}})
+			}
+		}
 		for pos := 0; pos <= 2; pos++ {
 			for _, dead := range []bool{false, true} {
 				for _, name := range []string{"fresh", "FancyNewOperator", "", "relu", "Top%K", "100%", "%s%d"} {
@@ -83,6 +89,7 @@ func init() {
 		p.Bounds = []string{
 			"constructors: NewModelFromBytes / FromFile / FromZipFile with os.ReadFile, zip.File.Open, io.ReadAll and proto.Unmarshal as nondeterministic stubs (every combination of failure / success explored): an environment failure comes out as an error with a nil model, never a panic",
 			"NewModel on an arbitrary decoded message within bounds: 0..3 opset imports whose versions are solver variables over all of int64; graph absent/present; 0..2 initializers with symbolic data_type over {FLOAT, INT64, FLOAT16, UNDEFINED, STRING} (and, for the no-panic assertions alone, over all of int32), one symbolic dim in [-1,3], typed payloads of 0..2 elements and raw payloads of 0/3/4/8 symbolic bytes (INT32) and of 1..12 symbolic bytes for each of the 11 element types read from raw_data; value infos with missing type / tensor type / shape / nil dimension / nil entries: refused iff an initializer is undecodable or the highest version is not 13 (then with the unsupported-opset error), introspection methods do not crash",
+			"NewModel on graphs with nodes whose attributes are not what the operator expects (a Constant whose value attribute holds no tensor / an undecodable tensor / no attributes, unnamed and mistyped attributes, an empty node): never a panic, a model or an error",
 			"Run on graphs with an operator type outside the opset (an opaque string unequal to every literal, and six concrete names, three with formatting verbs in them) at every position among three nodes, its output used or unused: Run fails with the unsupported-operator error",
 		}
 		p.Outside = []string{"arbitrary / truncated / adversarial BYTE STRINGS through proto.Unmarshal: the protobuf runtime (reflection, unsafe) is not encodable; its output is modelled as an arbitrary well-typed message within the bounds above, and the native cross-validation runs feed real garbage, truncated and sample files through the real decoder", "zero-element initializers", "more than 2 initializers / 3 opset imports"}
